@@ -3,6 +3,7 @@ use vstd::prelude::*;
 use vstd::arithmetic::power::*;
 use vstd::arithmetic::power2::*;
 use vstd::arithmetic::div_mod::*;
+use vstd::std_specs::bits::*;
 use crate::speclib::*;
 use crate::speclib_bits::*;
 use crate::l0_prim::*;
@@ -16,13 +17,426 @@ verus! {
 
 //@@ subst \b(Self|Uint)::(ZERO|ONE|MAX|BITS|LOG2_BITS)\b(?!\() => \1::\2()
 
+// ---- core methods without a vstd specification (assumed; same status as the assume_specification items in
+// speclib.rs / l0_corespec.rs; they belong in l0_corespec.rs once another unit needs them)
+pub assume_specification [core::cmp::Ordering::is_eq] (o: core::cmp::Ordering) -> (r: bool)
+    ensures r == (o == core::cmp::Ordering::Equal);
+pub assume_specification [core::cmp::Ordering::is_gt] (o: core::cmp::Ordering) -> (r: bool)
+    ensures r == (o == core::cmp::Ordering::Greater);
+
 /// s is the integer square root of n
 pub open spec fn is_isqrt(n: int, s: int) -> bool { 0 <= s && s * s <= n && n < (s + 1) * (s + 1) }
+
+/// value of `Uint::<LIMBS>::LOG2_BITS` = floor(log2(64·LIMBS))
+pub open spec fn log2_bits(limbs: int) -> int { 31 - u32_leading_zeros((64 * limbs) as u32) as int }
+
+/// one (zero-masked) Newton step
+spec fn nstep(n: int, x: int) -> int { if x == 0 { 0 } else { (x + n / x) / 2 } }
+
+spec fn isqrt(n: int) -> int { choose|s: int| is_isqrt(n, s) }
+
+/// T_i = 2^(2^i)
+spec fn tt(i: nat) -> int { p2(pow2(i)) }
+
+/// potential of the constant-time iteration (error e = x_i - isqrt(n) before round i):
+/// either the error is already <= 1 (absorbing), or (e - 2)·T_i <= H with the two explicit start-up rounds.
+spec fn sqrt_pot(i: nat, e: int, s: int, h: int, lg: nat) -> bool {
+    0 <= e && (e <= 1 || (s >= 2 && i <= lg && (i == 0 ==> 2 * e <= h) && (i == 1 ==> 4 * e <= h + 4) && (i >= 2 ==> (e - 2) * tt(i) <= h)))
+}
+
+proof fn lemma_isqrt_unique(n: int, s: int, t: int)
+    requires is_isqrt(n, s), is_isqrt(n, t)
+    ensures s == t
+{
+    if s < t { assert((s + 1) * (s + 1) <= t * t) by (nonlinear_arith) requires 0 <= s + 1 <= t; }
+    if t < s { assert((t + 1) * (t + 1) <= s * s) by (nonlinear_arith) requires 0 <= t + 1 <= s; }
+}
+
+proof fn lemma_isqrt_exists(n: int)
+    requires n >= 0
+    ensures is_isqrt(n, isqrt(n))
+    decreases n
+{
+    if n == 0 { assert(is_isqrt(0, 0)); }
+    else {
+        lemma_isqrt_exists(n - 1);
+        let s = isqrt(n - 1);
+        if (s + 1) * (s + 1) <= n {
+            assert((s + 1) * (s + 1) < (s + 2) * (s + 2)) by (nonlinear_arith) requires s >= 0;
+            assert(is_isqrt(n, s + 1));
+        } else {
+            assert(is_isqrt(n, s));
+        }
+    }
+}
+
+/// AM-GM: one Newton step from any y >= 1 lands strictly above sqrt(n) - 1
+proof fn lemma_newton_above(n: int, y: int)
+    requires y >= 1, n >= 0
+    ensures ((y + n / y) / 2 + 1) * ((y + n / y) / 2 + 1) > n, n / y >= 0
+{
+    let q = n / y;
+    lemma_fundamental_div_mod(n, y); lemma_mod_bound(n, y);
+    assert(y * q == q * y) by (nonlinear_arith);
+    assert(n < (q + 1) * y) by (nonlinear_arith) requires n == q * y + n % y, n % y < y;
+    let z = (y + q) / 2;
+    lemma_fundamental_div_mod(y + q, 2);
+    assert(2 * (z + 1) >= y + q + 1);
+    assert((y + q + 1) * (y + q + 1) >= 4 * (y * (q + 1))) by (nonlinear_arith);
+    assert(q >= 0) by { lemma_div_pos_is_pos(n, y); }
+    assert((2 * (z + 1)) * (2 * (z + 1)) >= (y + q + 1) * (y + q + 1)) by (nonlinear_arith) requires 2 * (z + 1) >= y + q + 1, y + q + 1 >= 0;
+    assert((2 * (z + 1)) * (2 * (z + 1)) == 4 * ((z + 1) * (z + 1))) by (nonlinear_arith);
+    assert((q + 1) * y == y * (q + 1)) by (nonlinear_arith);
+    assert((z + 1) * (z + 1) > n);
+}
+
+/// Newton step from above stays above: y >= 1  ==>  (y + n/y)/2 >= isqrt(n)
+proof fn lemma_newton_ge(n: int, s: int, y: int)
+    requires is_isqrt(n, s), y >= 1, n >= 0
+    ensures (y + n / y) / 2 >= s
+{
+    lemma_newton_above(n, y);
+    let z = (y + n / y) / 2;
+    if z + 1 <= s {
+        lemma_div_pos_is_pos(n, y);
+        assert((z + 1) * (z + 1) <= s * s) by (nonlinear_arith) requires 0 <= z + 1 <= s;
+    }
+}
+
+/// fix-point test: y >= 1 and next >= y  ==>  y*y <= n
+proof fn lemma_newton_fix(n: int, y: int)
+    requires y >= 1, n >= 0, (y + n / y) / 2 >= y
+    ensures y * y <= n
+{
+    let q = n / y;
+    lemma_fundamental_div_mod(n, y); lemma_mod_bound(n, y);
+    lemma_fundamental_div_mod(y + q, 2);
+    assert(q >= y);
+    assert(y * q == q * y) by (nonlinear_arith);
+    assert(q * y >= y * y) by (nonlinear_arith) requires q >= y, y >= 1;
+}
+
+/// combined: y >= s, y >= 1, next >= y  ==>  y == s
+proof fn lemma_newton_stop(n: int, s: int, y: int)
+    requires is_isqrt(n, s), y >= 1, y >= s, n >= 0, (y + n / y) / 2 >= y
+    ensures y == s
+{
+    lemma_newton_fix(n, y);
+    if y > s { assert((s + 1) * (s + 1) <= y * y) by (nonlinear_arith) requires 0 <= s + 1 <= y; }
+}
+
+/// strict descent otherwise: y > s  ==>  next < y
+proof fn lemma_newton_descends(n: int, s: int, y: int)
+    requires is_isqrt(n, s), y > s, n >= 0
+    ensures (y + n / y) / 2 < y
+{
+    if (y + n / y) / 2 >= y { lemma_newton_stop(n, s, y); }
+}
+
+/// from s itself the next value is s or s+1 (oscillation)
+proof fn lemma_newton_from_s(n: int, s: int)
+    requires is_isqrt(n, s), s >= 1
+    ensures s <= (s + n / s) / 2 <= s + 1
+{
+    lemma_newton_ge(n, s, s);
+    let q = n / s;
+    lemma_fundamental_div_mod(n, s); lemma_mod_bound(n, s);
+    assert(s * q == q * s) by (nonlinear_arith);
+    assert((s + 1) * (s + 1) == s * s + 2 * s + 1) by (nonlinear_arith);
+    assert(q <= s + 2) by (nonlinear_arith) requires q * s <= n, n < s * s + 2 * s + 1, s >= 1;
+    lemma_fundamental_div_mod(s + q, 2);
+}
+
+/// (*) error recurrence: x = s + e, x' = (x + n/x)/2 = s + e'  ==>  2(s+e)e' <= e^2 + 2s
+proof fn lemma_newton_error(n: int, s: int, x: int)
+    requires is_isqrt(n, s), x >= 1, x >= s, n >= 0
+    ensures 2 * x * ((x + n / x) / 2 - s) <= (x - s) * (x - s) + 2 * s
+{
+    let q = n / x; let xn = (x + q) / 2;
+    lemma_fundamental_div_mod(n, x); lemma_mod_bound(n, x);
+    lemma_fundamental_div_mod(x + q, 2);
+    assert(x * q == q * x) by (nonlinear_arith);
+    assert(q * x <= n);
+    assert(2 * xn <= x + q);
+    assert(2 * x * xn <= x * x + q * x) by (nonlinear_arith) requires 2 * xn <= x + q, x >= 1;
+    assert((s + 1) * (s + 1) == s * s + 2 * s + 1) by (nonlinear_arith);
+    assert(2 * x * (xn - s) == 2 * x * xn - 2 * x * s) by (nonlinear_arith);
+    assert((x - s) * (x - s) == x * x - 2 * x * s + s * s) by (nonlinear_arith);
+}
+
+/// endgame: e <= 3 and s >= 2 ==> e' <= 1
+proof fn lemma_newton_endgame(n: int, s: int, x: int)
+    requires is_isqrt(n, s), x >= s, s >= 2, n >= 0, x - s <= 3
+    ensures 0 <= (x + n / x) / 2 - s <= 1
+{
+    lemma_newton_error(n, s, x);
+    lemma_newton_ge(n, s, x);
+    let e = x - s; let ep = (x + n / x) / 2 - s;
+    assert(e * e <= 9) by (nonlinear_arith) requires 0 <= e <= 3;
+    assert(ep <= 1) by (nonlinear_arith) requires 2 * x * ep <= e * e + 2 * s, e * e <= 9, x == s + e, s >= 2, e >= 0, ep >= 0;
+}
+
+/// the pair {s, s+1} is absorbing, and from s+1 the step goes to s  (zero-masked step; covers n == 0)
+proof fn lemma_nstep_stay(n: int, s: int, x: int)
+    requires is_isqrt(n, s), n >= 0, s <= x <= s + 1
+    ensures s <= nstep(n, x) <= s + 1, x == s + 1 ==> nstep(n, x) == s
+{
+    if s == 0 {
+        assert(n == 0);
+        if x == 1 { assert(0int / 1 == 0); }
+    } else if x == s {
+        lemma_newton_from_s(n, s);
+    } else {
+        lemma_newton_descends(n, s, x);
+        lemma_newton_ge(n, s, x);
+    }
+}
+
+/// quotient bound that keeps `x + n/x` inside the width: (x+1)^2 > n  ==>  n/x <= x + 2
+proof fn lemma_q_bound(n: int, x: int)
+    requires x >= 1, n >= 0, (x + 1) * (x + 1) > n
+    ensures 0 <= n / x <= x + 2
+{
+    let q = n / x;
+    lemma_fundamental_div_mod(n, x); lemma_mod_bound(n, x);
+    lemma_div_pos_is_pos(n, x);
+    assert(x * q == q * x) by (nonlinear_arith);
+    assert((x + 1) * (x + 1) == x * x + 2 * x + 1) by (nonlinear_arith);
+    assert(q <= x + 2) by (nonlinear_arith) requires q * x <= n, n < x * x + 2 * x + 1, x >= 1;
+}
+
+/// H·(e' - 1) <= e^2 for any H <= 2s   (from (*))
+proof fn lemma_err_h(n: int, s: int, h: int, x: int)
+    requires is_isqrt(n, s), x >= 1, x >= s, n >= 0, 0 < h <= 2 * s
+    ensures ((x + n / x) / 2 - s - 1) * h <= (x - s) * (x - s), (x + n / x) / 2 >= s
+{
+    lemma_newton_error(n, s, x);
+    lemma_newton_ge(n, s, x);
+    let e = x - s; let ep = (x + n / x) / 2 - s;
+    assert(2 * s * (ep - 1) <= e * e) by (nonlinear_arith) requires 2 * x * ep <= e * e + 2 * s, x == s + e, e >= 0, ep >= 0;
+    assert(e * e >= 0) by (nonlinear_arith);
+    if ep >= 1 {
+        assert((ep - 1) * h <= 2 * s * (ep - 1)) by (nonlinear_arith) requires ep - 1 >= 0, h <= 2 * s;
+    } else {
+        assert((ep - 1) * h <= 0) by (nonlinear_arith) requires ep - 1 <= 0, h > 0;
+    }
+}
+
+/// start-up round 0: 2e <= H  ==>  4e' <= H + 4
+proof fn lemma_pot0(e: int, ep: int, h: int)
+    requires 0 <= e, 2 * e <= h, (ep - 1) * h <= e * e, h > 0
+    ensures 4 * ep <= h + 4
+{
+    assert(4 * (e * e) <= h * h) by (nonlinear_arith) requires 0 <= 2 * e <= h;
+    assert((4 * (ep - 1)) * h <= h * h) by (nonlinear_arith) requires (ep - 1) * h <= e * e, 4 * (e * e) <= h * h;
+    if 4 * (ep - 1) > h { assert((4 * (ep - 1)) * h > h * h) by (nonlinear_arith) requires 4 * (ep - 1) > h, h > 0; }
+}
+
+/// start-up round 1: 4e <= H + 4  ==>  (e' - 2)·16 <= H
+proof fn lemma_pot1(e: int, ep: int, h: int)
+    requires 0 <= e, 4 * e <= h + 4, (ep - 1) * h <= e * e, h >= 2
+    ensures (ep - 2) * 16 <= h
+{
+    assert(16 * (e * e) <= (h + 4) * (h + 4)) by (nonlinear_arith) requires 0 <= 4 * e <= h + 4;
+    assert((h + 4) * (h + 4) == h * h + 8 * h + 16) by (nonlinear_arith);
+    assert(16 * ((ep - 1) * h) <= h * h + 8 * h + 16);
+    assert(16 * ((ep - 1) * h) == (16 * (ep - 2)) * h + 16 * h) by (nonlinear_arith);
+    assert((16 * (ep - 2)) * h <= h * h);
+    if 16 * (ep - 2) > h { assert((16 * (ep - 2)) * h > h * h) by (nonlinear_arith) requires 16 * (ep - 2) > h, h > 0; }
+}
+
+/// quadratic round: (e - 2)·T <= H  ==>  (e' - 2)·T^2 <= H      (T >= 8, H >= 8: 4/T + 4/H <= 1)
+proof fn lemma_pot_sq(e: int, ep: int, h: int, t: int)
+    requires 0 <= e, (e - 2) * t <= h, (ep - 1) * h <= e * e, h >= 8, t >= 8
+    ensures (ep - 2) * (t * t) <= h
+{
+    let et = e * t;
+    assert((e - 2) * t == et - 2 * t) by (nonlinear_arith) requires et == e * t;
+    assert(0 <= et) by (nonlinear_arith) requires et == e * t, e >= 0, t >= 8;
+    let m = 2 * t + h;
+    assert(et * et <= m * m) by (nonlinear_arith) requires 0 <= et <= m;
+    assert(m * m == 4 * (t * t) + 4 * (t * h) + h * h) by (nonlinear_arith) requires m == 2 * t + h;
+    let tt_ = t * t;
+    assert(tt_ >= 0) by (nonlinear_arith) requires tt_ == t * t;
+    assert(et * et == (e * e) * tt_) by (nonlinear_arith) requires et == e * t, tt_ == t * t;
+    assert(((ep - 1) * h) * tt_ <= (e * e) * tt_) by (nonlinear_arith) requires (ep - 1) * h <= e * e, tt_ >= 0;
+    // 4T^2 + 4TH <= H T^2
+    assert(8 * tt_ <= h * tt_) by (nonlinear_arith) requires h >= 8, tt_ >= 0;
+    let th = t * h;
+    assert(8 * th <= h * tt_) by (nonlinear_arith) requires th == t * h, tt_ == t * t, t >= 8, h >= 8;
+    assert(4 * tt_ + 4 * th <= h * tt_);
+    let g = (ep - 2) * tt_;
+    assert(((ep - 1) * h) * tt_ == g * h + h * tt_) by (nonlinear_arith) requires g == (ep - 2) * tt_;
+    assert(g * h <= h * h);
+    if g > h { assert(g * h > h * h) by (nonlinear_arith) requires g > h, h > 0; }
+}
+
+proof fn lemma_tt(i: nat)
+    ensures tt(i + 1) == tt(i) * tt(i), tt(0) == 2, tt(1) == 4, tt(2) == 16, tt(i) >= 2, i >= 2 ==> tt(i) >= 16
+    decreases i
+{
+    lemma2_to64();
+    lemma_pow2_unfold(i + 1);
+    lemma_pow2_adds(pow2(i), pow2(i));
+    assert(pow2(1) == 2 && pow2(2) == 4 && pow2(0) == 1 && pow2(4) == 16);
+    if i > 0 {
+        lemma_tt((i - 1) as nat);
+        assert(tt(i) == tt((i - 1) as nat) * tt((i - 1) as nat));
+        let a = tt((i - 1) as nat);
+        assert(a * a >= 2) by (nonlinear_arith) requires a >= 2;
+        if i >= 3 { assert(a * a >= 16) by (nonlinear_arith) requires a >= 16; }
+        if i == 2 { assert(tt(1) == 4); assert(a * a == 16) by (nonlinear_arith) requires a == 4; }
+    }
+}
+
+/// T_i > 2^k as soon as 2^i > k
+proof fn lemma_tt_big(i: nat, lg: nat, k: nat)
+    requires i >= lg, k < pow2(lg)
+    ensures tt(i) >= 2 * p2(k)
+{
+    if i > lg { lemma_pow2_strictly_increases(lg, i); }
+    assert(pow2(i) >= k + 1);
+    if pow2(i) > k + 1 { lemma_pow2_strictly_increases(k + 1, pow2(i)); }
+    lemma_pow2_unfold(k + 1);
+}
+
+/// the iterates stay in [s, H]
+proof fn lemma_nstep_range(n: int, s: int, h: int, x: int)
+    requires is_isqrt(n, s), n >= 0, s < h, s <= x <= h
+    ensures s <= nstep(n, x) <= h
+{
+    if x <= s + 1 { lemma_nstep_stay(n, s, x); }
+    else { lemma_newton_descends(n, s, x); lemma_newton_ge(n, s, x); }
+}
+
+/// one round of the constant-time iteration preserves the potential
+proof fn lemma_pot_step(n: int, s: int, h: int, lg: nat, i: nat, x: int)
+    requires is_isqrt(n, s), n >= 0, h >= 1, n >= 1 ==> h <= 2 * s, s < h, s <= x <= h, tt(lg) >= 2 * h, lg >= 2,
+        sqrt_pot(i, x - s, s, h, lg)
+    ensures sqrt_pot(i + 1, nstep(n, x) - s, s, h, lg), s <= nstep(n, x) <= h
+{
+    let e = x - s; let xn = nstep(n, x); let en = xn - s;
+    lemma_nstep_range(n, s, h, x);
+    if e <= 1 {
+        lemma_nstep_stay(n, s, x);
+    } else {
+        assert(s >= 2 && x >= 1);
+        assert(n >= 1) by { assert(s * s >= 1) by (nonlinear_arith) requires s >= 2; }
+        lemma_newton_ge(n, s, x);
+        if e <= 3 {
+            lemma_newton_endgame(n, s, x);
+        } else {
+            lemma_err_h(n, s, h, x);
+            lemma_tt(i);
+            if i == 0 {
+                lemma_pot0(e, en, h);
+            } else if i == 1 {
+                lemma_pot1(e, en, h);
+            } else {
+                let t = tt(i);
+                assert(2 * t <= (e - 2) * t) by (nonlinear_arith) requires e >= 4, t >= 16;
+                if i == lg { assert(false); }
+                lemma_pot_sq(e, en, h, t);
+            }
+        }
+    }
+}
+
+/// initial guess H = 2^ceil(bits/2): fits the width with 3 bits to spare, H^2 > n, (H/2)^2 <= n
+proof fn lemma_sqrt_init(n: int, b: nat, k: nat, limbs: nat)
+    requires n >= 0, n < p2(b), b > 0 ==> n >= p2((b - 1) as nat), b == 0 ==> n == 0, k == (b + 1) / 2, b <= 64 * limbs, limbs >= 1
+    ensures k + 3 <= 64 * limbs, k <= 32 * limbs, 8 * p2(k) <= bp(limbs), p2(k) >= 1, p2(k) * p2(k) > n,
+        n >= 1 ==> k >= 1 && p2(k) == 2 * p2((k - 1) as nat) && p2((k - 1) as nat) * p2((k - 1) as nat) <= n
+{
+    lemma_bp_pow2(limbs);
+    lemma_pow2_pos(k);
+    lemma2_to64();
+    lemma_pow2_adds(k, 3);
+    if k + 3 < 64 * limbs { lemma_pow2_strictly_increases(k + 3, 64 * limbs); }
+    lemma_pow2_adds(k, k);
+    if b < 2 * k { lemma_pow2_strictly_increases(b, 2 * k); }
+    if n >= 1 {
+        assert(b >= 1);
+        let k1 = (k - 1) as nat;
+        lemma_pow2_unfold(k);
+        lemma_pow2_adds(k1, k1);
+        if 2 * k1 < b - 1 { lemma_pow2_strictly_increases(2 * k1, (b - 1) as nat); }
+    }
+}
+
+/// what the callers need to know about the initial guess x_0 = 1 << ((bits + 1) >> 1)
+spec fn sqrt_init_a(n: int, b: nat, limbs: nat) -> bool {
+    let k = (b + 1) / 2; let h = p2(k);
+    k < 64 * limbs && 8 * h <= bp(limbs) && h >= 1 && (1 * h) % bp(limbs) == h && h * h > n && (h + 1) * (h + 1) > n
+        && (n == 0 ==> h == 1)
+}
+spec fn sqrt_init_b(n: int, b: nat, lg: nat) -> bool {
+    let k = (b + 1) / 2; let h = p2(k);
+    isqrt(n) < h && (n >= 1 ==> h <= 2 * isqrt(n)) && tt(lg) >= 2 * h
+}
+spec fn bits_post(n: int, b: nat, limbs: nat) -> bool {
+    b <= 64 * limbs && (b == 0) == (n == 0) && n < p2(b) && (b > 0 ==> n >= p2((b - 1) as nat))
+}
+
+proof fn lemma_sqrt_init_a(n: int, b: nat, limbs: nat)
+    requires n >= 0, limbs >= 1, bits_post(n, b, limbs)
+    ensures sqrt_init_a(n, b, limbs)
+{
+    let k = (b + 1) / 2; let h = p2(k);
+    lemma_sqrt_init(n, b, k, limbs);
+    assert(1 * h == h);
+    lemma_small_mod(h as nat, bp(limbs) as nat);
+    assert((h + 1) * (h + 1) > h * h) by (nonlinear_arith) requires h >= 1;
+    if n == 0 { assert(k == 0); lemma2_to64(); }
+}
+
+proof fn lemma_log2_bits(limbs: int)
+    requires 1 <= limbs < 0x400_0000
+    ensures 6 <= log2_bits(limbs) <= 31, pow2(log2_bits(limbs) as nat) <= 64 * limbs < pow2((log2_bits(limbs) + 1) as nat)
+{
+    lemma_lz32((64 * limbs) as u32);
+    let lz = u32_leading_zeros((64 * limbs) as u32);
+    lemma2_to64();
+    if lz > 25 { lemma_pow2_strictly_increases((32 - lz) as nat, 7); }
+}
+
+proof fn lemma_sqrt_init_b(n: int, b: nat, limbs: nat, lg: nat)
+    requires n >= 0, limbs >= 1, bits_post(n, b, limbs), 64 * limbs < pow2(lg + 1)
+    ensures sqrt_init_b(n, b, lg)
+{
+    let k = (b + 1) / 2; let h = p2(k); let s = isqrt(n);
+    lemma_sqrt_init(n, b, k, limbs);
+    lemma_isqrt_exists(n);
+    if s >= h { assert(s * s >= h * h) by (nonlinear_arith) requires s >= h, h >= 1; }
+    if n >= 1 {
+        let h1 = p2((k - 1) as nat);
+        if h1 > s { assert(h1 * h1 >= (s + 1) * (s + 1)) by (nonlinear_arith) requires h1 >= s + 1, s >= 0; }
+    }
+    lemma_pow2_unfold(lg + 1);
+    assert(k < pow2(lg));
+    lemma_tt_big(lg, lg, k);
+}
+
+/// bridge from the potential at round LOG2_BITS + 1 to the result: min(x_prev, x) is the root
+proof fn lemma_sqrt_final(n: int, s: int, h: int, lg: nat, xp: int, x: int)
+    requires is_isqrt(n, s), n >= 0, s <= xp, sqrt_pot(lg + 1, xp - s, s, h, lg), x == nstep(n, xp)
+    ensures (if xp > x { x } else { xp }) == s
+{
+    lemma_nstep_stay(n, s, xp);
+}
 
 //@@ const src/uint.rs | impl<const LIMBS: usize> Uint<LIMBS> | LOG2_BITS
 impl<const LIMBS: usize> Uint<LIMBS> {
 pub const fn LOG2_BITS() -> (ret__: u32)
+//@+
+    requires 1 <= LIMBS < 0x400_0000
+    ensures ret__ as int == log2_bits(LIMBS as int), 6 <= ret__ <= 31,
+        pow2(ret__ as nat) <= 64 * LIMBS < pow2((ret__ + 1) as nat)
+//@-
 {
+//@+
+    proof { lemma_log2_bits(LIMBS as int); lemma_lz32((64 * LIMBS) as u32); }
+//@-
     u32::BITS - Self::BITS().leading_zeros() - 1
 }
 }
@@ -30,7 +444,17 @@ pub const fn LOG2_BITS() -> (ret__: u32)
 //@@ fn src/uint/sqrt.rs | impl<const LIMBS: usize> Uint<LIMBS> | sqrt_vartime | body | props C20 C11 C15
 impl<const LIMBS: usize> Uint<LIMBS> {
 pub const fn sqrt_vartime(&self) -> (ret__: Self)
+//@+
+    requires 1 <= LIMBS < 0x400_0000
+    ensures is_isqrt(self.v(), ret__.v())
+//@-
 {
+//@+
+    let ghost n = self.v();
+    proof { lemma_val_bound(self.limbs@, LIMBS as nat); }
+    assert forall|y: u32| #[trigger] (y >> 1) == y / 2 by { assert(y >> 1 == y / 2) by (bit_vector); }
+    assert forall|b: u32| bits_post(n, b as nat, LIMBS as nat) implies #[trigger] sqrt_init_a(n, b as nat, LIMBS as nat) by { lemma_sqrt_init_a(n, b as nat, LIMBS as nat); }
+//@-
         // Uses Brent & Zimmermann, Modern Computer Arithmetic, v0.5.9, Algorithm 1.13
         if self.cmp_vartime(&Self::ZERO()).is_eq() {
             return Self::ZERO();
@@ -40,13 +464,31 @@ pub const fn sqrt_vartime(&self) -> (ret__: Self)
         let mut x = Self::ONE()
             .overflowing_shl((self.bits() + 1) >> 1)
             .expect("shift within range"); // ≥ √(`self`)
+//@+
+    assert(x.v() >= 1 && (x.v() + 1) * (x.v() + 1) > n && 2 * x.v() + 2 < bp(LIMBS as nat));
+//@-
         // Stop right away if `x` is zero to avoid divizion by zero.
         while !x.cmp_vartime(&Self::ZERO()).is_eq()
+//@+
+    invariant 1 <= LIMBS < 0x400_0000, n == self.v(), n >= 1, (x.v() + 1) * (x.v() + 1) > n, 2 * x.v() + 2 < bp(LIMBS as nat),
+    ensures is_isqrt(n, x.v()),
+    decreases x.v(),
+//@-
 {
             // Calculate `x_{i+1} = floor((x_i + self / x_i) / 2)`
             let q = self.wrapping_div_vartime(&x.to_nz().expect("ensured non-zero"));
             let t = x.wrapping_add(&q);
             let next_x = t.shr1();
+//@+
+    proof {
+        let xv = x.v();
+        lemma_val_bound(x.limbs@, LIMBS as nat);
+        lemma_q_bound(n, xv);
+        lemma_small_mod((xv + n / xv) as nat, bp(LIMBS as nat) as nat);
+        assert(next_x.v() == (xv + n / xv) / 2);
+        if next_x.v() >= xv { lemma_newton_fix(n, xv); } else { lemma_newton_above(n, xv); }
+    }
+//@-
             // If `next_x` is the same as `x` or greater, we reached convergence
             // (`x` is guaranteed to either go down or oscillate between
             // `sqrt(self)` and `sqrt(self) + 1`)
@@ -62,7 +504,21 @@ pub const fn sqrt_vartime(&self) -> (ret__: Self)
 //@@ fn src/uint/sqrt.rs | impl<const LIMBS: usize> Uint<LIMBS> | sqrt | body | props C20 C11
 impl<const LIMBS: usize> Uint<LIMBS> {
 pub const fn sqrt(&self) -> (ret__: Self)
+//@+
+    requires 1 <= LIMBS < 0x400_0000
+    ensures is_isqrt(self.v(), ret__.v())
+//@-
 {
+//@+
+    let ghost n = self.v();
+    let ghost s = isqrt(n);
+    let ghost lg = log2_bits(LIMBS as int) as nat;
+    proof { lemma_val_bound(self.limbs@, LIMBS as nat); lemma_isqrt_exists(n); lemma_log2_bits(LIMBS as int); }
+    assert forall|y: u32| #[trigger] (y >> 1) == y / 2 by { assert(y >> 1 == y / 2) by (bit_vector); }
+    assert forall|b: u32| bits_post(n, b as nat, LIMBS as nat) implies #[trigger] sqrt_init_a(n, b as nat, LIMBS as nat) && sqrt_init_b(n, b as nat, lg) by {
+        lemma_sqrt_init_a(n, b as nat, LIMBS as nat); lemma_sqrt_init_b(n, b as nat, LIMBS as nat, lg);
+    }
+//@-
         // Uses Brent & Zimmermann, Modern Computer Arithmetic, v0.5.9, Algorithm 1.13.
         //
         // See Hast, "Note on computation of integer square roots"
@@ -73,22 +529,51 @@ pub const fn sqrt(&self) -> (ret__: Self)
         let mut x = Self::ONE()
             .overflowing_shl((self.bits() + 1) >> 1)
             .expect("shift within range"); // ≥ √(`self`)
+//@+
+    let ghost h = x.v();
+    assert(h >= 1 && 8 * h <= bp(LIMBS as nat) && s < h && (n >= 1 ==> h <= 2 * s) && tt(lg) >= 2 * h && (n == 0 ==> h == 1));
+    assert(sqrt_pot(0, h - s, s, h, lg));
+//@-
         // Repeat enough times to guarantee result has stabilized.
         let mut i = 0;
         let mut x_prev = x; // keep the previous iteration in case we need to roll back.
         // TODO (#378): the tests indicate that just `Self::LOG2_BITS()` may be enough.
         while i < Self::LOG2_BITS() + 2
+//@+
+    invariant 1 <= LIMBS < 0x400_0000, n == self.v(), n >= 0, is_isqrt(n, s), lg == log2_bits(LIMBS as int), 6 <= lg <= 31,
+        h >= 1, 8 * h <= bp(LIMBS as nat), s < h, n >= 1 ==> h <= 2 * s, tt(lg) >= 2 * h,
+        i <= lg + 2, s <= x.v() <= h, sqrt_pot(i as nat, x.v() - s, s, h, lg),
+        i >= 1 ==> s <= x_prev.v() <= h && sqrt_pot((i - 1) as nat, x_prev.v() - s, s, h, lg) && x.v() == nstep(n, x_prev.v()),
+    decreases lg + 2 - i,
+//@-
 {
+//@+
+    let ghost xv = x.v();
+//@-
             x_prev = x;
             // Calculate `x_{i+1} = floor((x_i + self / x_i) / 2)`
             let x_nonzero = x.is_nonzero();
             let (q, _) = self.div_rem(&NonZero(Self::select(&Self::ONE(), &x, x_nonzero)));
             x = Self::select(&Self::ZERO(), &x.wrapping_add(&q).shr1(), x_nonzero);
+//@+
+    proof {
+        if xv != 0 {
+            assert((xv + 1) * (xv + 1) > n) by (nonlinear_arith) requires xv >= s, s >= 0, (s + 1) * (s + 1) > n;
+            lemma_q_bound(n, xv);
+            lemma_small_mod((xv + n / xv) as nat, bp(LIMBS as nat) as nat);
+        }
+        assert(x.v() == nstep(n, xv));
+        lemma_pot_step(n, s, h, lg, i as nat, xv);
+    }
+//@-
             i += 1;
         }
         // At this point `x_prev == x_{n}` and `x == x_{n+1}`
         // where `n == i - 1 == LOG2_BITS + 1 == floor(log2(BITS)) + 1`.
         // Thus, according to Hast, `sqrt(self) = min(x_n, x_{n+1})`.
+//@+
+    proof { lemma_sqrt_final(n, s, h, lg, x_prev.v(), x.v()); }
+//@-
         Self::select(&x_prev, &x, Uint::gt(&x_prev, &x))
     }
 }
@@ -96,6 +581,10 @@ pub const fn sqrt(&self) -> (ret__: Self)
 //@@ fn src/uint/sqrt.rs | impl<const LIMBS: usize> Uint<LIMBS> | wrapping_sqrt | body | props C20 C11
 impl<const LIMBS: usize> Uint<LIMBS> {
 pub const fn wrapping_sqrt(&self) -> (ret__: Self)
+//@+
+    requires 1 <= LIMBS < 0x400_0000
+    ensures is_isqrt(self.v(), ret__.v())
+//@-
 {
         self.sqrt()
     }
@@ -104,6 +593,10 @@ pub const fn wrapping_sqrt(&self) -> (ret__: Self)
 //@@ fn src/uint/sqrt.rs | impl<const LIMBS: usize> Uint<LIMBS> | wrapping_sqrt_vartime | body | props C20 C11 C15
 impl<const LIMBS: usize> Uint<LIMBS> {
 pub const fn wrapping_sqrt_vartime(&self) -> (ret__: Self)
+//@+
+    requires 1 <= LIMBS < 0x400_0000
+    ensures is_isqrt(self.v(), ret__.v())
+//@-
 {
         self.sqrt_vartime()
     }
